@@ -63,6 +63,22 @@ func c26Gen(r *vu.Rng, i int, c25 bool) []string {
 			return int64(r.Range(1, 50)) * 1000000
 		}
 	}
+	if r.Chance(1, 10) {
+		// scripted prefix aiming at persistent congestion: an RTT sample, then two ack-eliciting
+		// packets sent seconds apart that are both declared lost by one later ACK
+		gap := int64(r.Range(1, 12)) * 1000000000
+		ops = append(ops,
+			fmt.Sprintf("send %d 100 1 1 0", space),
+			fmt.Sprintf("ack %d %d 0 0-1", space, int64(r.Range(1, 60))*1000000),
+			fmt.Sprintf("send %d 200 1 1 1000000", space),
+			fmt.Sprintf("send %d 200 1 1 %d", space, gap),
+			fmt.Sprintf("send %d 200 %d 1 1000", space, r.Intn(2)),
+			fmt.Sprintf("send %d 200 1 1 1000", space),
+			fmt.Sprintf("send %d 200 1 1 1000", space),
+			fmt.Sprintf("send %d 200 1 1 1000", space),
+			fmt.Sprintf("ack %d %d 0 %d-7", space, int64(r.Range(1, 3000))*1000000, r.Range(5, 6)))
+		next[space] = 7
+	}
 	for k := 0; k < n; k++ {
 		if r.Chance(1, 6) {
 			space = r.Intn(3)
@@ -500,7 +516,22 @@ func c26Step(st *c26State, op string) (string, string) {
 				st.o.Stat("ack:forgotten-skip-accepted")
 			}
 		}
+		pre := *c.cc
 		c.receiveAckEnd(st.now, nil, numberSpace(sp), delay, st.onAckOrLoss)
+		switch {
+		case !c.cc.recoveryStartTime.IsZero() && !c.cc.recoveryStartTime.Equal(pre.recoveryStartTime):
+			st.o.Stat("cc:enter-recovery")
+		case c.cc.congestionWindow > pre.congestionWindow && pre.congestionWindow < pre.slowStartThreshold:
+			st.o.Stat("cc:slow-start")
+		case c.cc.congestionWindow > pre.congestionWindow:
+			st.o.Stat("cc:congestion-avoidance")
+		}
+		if !pre.ackLastLoss.IsZero() && c.cc.recoveryStartTime.IsZero() && c.cc.congestionWindow == 2*st.mds {
+			st.o.Stat("cc:persistent-congestion")
+		}
+		if c.cc.congestionWindow == 2*st.mds {
+			st.o.Stat("cc:at-minimum-window")
+		}
 		st.oracle26(op)
 		res := "ok"
 		if len(viol) > 0 {
